@@ -108,7 +108,7 @@ func runBuild(c *Ctx, dir string, patterns []string) (cli.Run, string) {
 }
 
 func checkC09(c *Ctx) error {
-	c.Rule = "seeded triples (configuration, partition into 2-5 fragments with attribute-level splits of services and meta, contiguous runs of calls/tags/decorators, arbitrary partition of mappings, whole argument lists, plus decoy values in earlier fragments that later ones override) x file/pattern layouts whose glob order differs from the lexical order of cleaned paths (c-d/ vs c/, upper/lower case, ./x/../x, explicit file before a glob). Oracles: byte equality of -o between (A) the single-file form, (B) the split form, (C) the single-file form of the reference merge of the fragments in the expected file order, (D) pre-merged neighbours (associativity) and (E) the split form with empty files inserted (identity). distinct = distinct (fragments, layout); non-trivial = >=2 fragments with at least one overridden value or one appended list spanning fragments"
+	c.Rule = "seeded triples (configuration, partition into 2-5 fragments with attribute-level splits of services and meta, contiguous runs of calls/tags/decorators, arbitrary partition of mappings, whole argument lists, plus decoy values in earlier fragments that later ones override) x file/pattern layouts whose glob order differs from the lexical order of cleaned paths (c-d/ vs c/, upper/lower case, ./x/../x, explicit file before a glob). Oracles: byte equality of -o between (A) the single-file form, (B) the split form, (C) the single-file form of the reference merge of the fragments in the expected file order, (D) pre-merged neighbours (associativity) and (E) the split form with empty files inserted (identity); (H) re-spelled with anchors/merge keys; (I) invalid configurations (duplicate tag, shared getter, cycle, scope conflict, dangling reference - possibly with halves in different fragments): same exit status and diagnostics split and unsplit. distinct = distinct (fragments, layout); non-trivial = >=2 fragments with at least one overridden value or one appended list spanning fragments"
 	c.Assumptions = []string{"reference merge engine/ref.Merge (B.1)", "expected file order: patterns in argv order, inside a pattern bytewise order of filepath.Clean-ed matches", "the splitter is validated on every case: the reference merge of its fragments must give the original configuration back, else the case is a harness failure"}
 	w := c.W
 	n := c.Pick(300, 16000)
@@ -304,6 +304,82 @@ func checkC09(c *Ctx) error {
 				c.Add("yaml_sugar_split_compared", 1)
 				if runS.Res.Exit != 0 || outS != outB {
 					c.Violate("yaml-anchors-merge-keys-change-output:split", fmt.Sprintf("the fragments written with anchors, aliases, merge keys and explicit tags: exit %d, output equal: %v\n%s\n%s", runS.Res.Exit, outS == outB, rejectReason2(runS), firstDiff(outB, outS)), files)
+				}
+			}
+		}
+		// (I) configurations that are INVALID as a whole: the split form must be rejected with the same diagnostics as the single
+		// file, also when the defect only exists after merging (the same tag appended by two files, a cycle or a scope conflict
+		// whose halves live in different files, a getter used by services of two files)
+		if i%2 == 0 {
+			bad := conf.Clone()
+			what := ""
+			switch (i / 2) % 5 {
+			case 0:
+				what = "duplicate-tag"
+				si := r.Intn(len(bad.Services))
+				for x := range bad.Services {
+					if len(bad.Services[(si+x)%len(bad.Services)].Tags) > 0 && !bad.Services[(si+x)%len(bad.Services)].IsTodo() {
+						si = (si + x) % len(bad.Services)
+						break
+					}
+				}
+				sv := &bad.Services[si]
+				if sv.IsTodo() {
+					what = ""
+					break
+				}
+				if len(sv.Tags) == 0 {
+					sv.Tags = []cfg.Tag{{Name: "dupt", Prio: cfg.P(3)}}
+				}
+				sv.Tags = append(append([]cfg.Tag{}, sv.Tags...), sv.Tags[r.Intn(len(sv.Tags))])
+			case 1:
+				what = "same-getter"
+				n := 0
+				for x := range bad.Services {
+					if sv := &bad.Services[x]; !sv.IsTodo() && n < 2 {
+						sv.Getter = cfg.P("SharedGetterName")
+						n++
+					}
+				}
+				if n < 2 {
+					what = ""
+				}
+			case 2:
+				what = "cycle"
+				gen.Inject(r, &bad, "cycle-svc", i)
+			case 3:
+				what = "scope"
+				gen.Inject(r, &bad, "scope", i)
+			default:
+				what = "dangling"
+				gen.Inject(r, &bad, []string{"missing-param", "missing-service", "missing-mixed"}[r.Intn(3)], i)
+			}
+			if what != "" {
+				bparts := gen.SplitParts(r, &bad, k)
+				if normalize(ref.MergeAll(bparts)) != normalize(bad) {
+					c.Inconclusive(fmt.Sprintf("splitter self-check failed on invalid case %d (%s)", i, what))
+				} else {
+					_ = work.WriteFile(filepath.Join(dir, "bad-single.yaml"), []byte(bad.YAML()))
+					var pats []string
+					bfiles := map[string]string{"input/bad-single.yaml": bad.YAML()}
+					for x := range bparts {
+						name := fmt.Sprintf("bad-%d.yaml", x)
+						_ = work.WriteFile(filepath.Join(dir, name), []byte(bparts[x].YAML()))
+						bfiles["input/"+name] = bparts[x].YAML()
+						pats = append(pats, name)
+					}
+					runS, _ := runBuild(c, dir, []string{"bad-single.yaml"})
+					runP, _ := runBuild(c, dir, pats)
+					c.Add("invalid_configurations_split_vs_single", 1)
+					c.Add("invalid:"+what, 1)
+					if runS.Res.Exit == 0 {
+						c.Add("invalid_configurations_accepted_as_single_file(unexpected)", 1)
+					}
+					if runS.Res.Exit != runP.Res.Exit || strings.Join(runS.Rep.List, "\n") != strings.Join(runP.Rep.List, "\n") {
+						bfiles["stdout-single.txt"] = runS.Res.Stdout
+						bfiles["stdout-split.txt"] = runP.Res.Stdout
+						c.Violate("split-changes-verdict:"+what, fmt.Sprintf("an invalid configuration (%s): single file exit %d, split over %d files exit %d\nsingle: %q\nsplit:  %q", what, runS.Res.Exit, k, runP.Res.Exit, runS.Rep.List, runP.Rep.List), bfiles)
+					}
 				}
 			}
 		}
